@@ -84,12 +84,20 @@ void rotLaws(Rng& rng, int variant) {
 	if (dist(m, m2) > 2e-5f) bad("rotmat-roundtrip", fmt("angle=%g err=%g", rv.length(), dist(m, m2)));
 	// any angle: matrix still orthonormal
 	Vector3 big = randRotVec(rng, 12.0f);
+	if (variant % 5 == 4) {
+		// the band around a half turn, where RotMatToVec switches to its diagonal-based branch
+		big = randRotVec(rng, 1.0f);
+		if (big.length() < 1e-3f) big = Vector3(0.3f, -0.8f, 0.5f);
+		big.Normalize();
+		big = big * (3.14159265f + rng.range(-1.5e-3f, 3e-4f));
+	}
 	Matrix3 mb = RotVecToMat(big);
 	if (dist(mb * mb.Transpose(), Matrix3()) > 2e-5f) bad("rotvec-orthonormal", fmt("angle=%g err=%g", big.length(), dist(mb * mb.Transpose(), Matrix3())));
 	Vector3 bv = RotMatToVec(mb);
 	// conditioning: the axis comes from the antisymmetric part, whose length is 2 sin(angle); one float ulp in the matrix moves it by ~1e-7 / sin(angle)
 	double sinEff = 0.5 * std::sqrt(std::pow((double)mb[1][2] - mb[2][1], 2) + std::pow((double)mb[2][0] - mb[0][2], 2) + std::pow((double)mb[0][1] - mb[1][0], 2));
-	float tolAny = 1e-4f + (float)std::min(6e-7 / std::max(sinEff, 1e-9), 4e-3);
+	// and within ~1e-3 of the half turn the diagonal-based branch answers with the angle pi itself and square roots of float residues
+	float tolAny = (float)std::min(1e-4 + 6e-7 / std::max(sinEff, 1e-9) + (sinEff < 1.2e-3 ? 1.5e-3 : 0.0), 2.5);
 	if (!finite3(bv) || dist(RotVecToMat(bv), mb) > tolAny) bad("rotmat-roundtrip-anyangle", fmt("angle=%g err=%g tol=%g", big.length(), dist(RotVecToMat(bv), mb), tolAny));
 	R_cover(fmt("rot/%d/%016llx", variant, (unsigned long long)rng.s));
 }
@@ -231,7 +239,7 @@ void shapeBounds(uint64_t seed, int variant) {
 }
 
 struct Plan { size_t each; size_t shapes; };
-Plan plan() { return g_cfg.tier ? Plan{600000, 3000} : Plan{6000, 60}; }
+Plan plan() { return g_cfg.tier ? Plan{600000, 3000} : Plan{60000, 240}; }
 const size_t PER_CASE = 250;
 
 void run(size_t idx) {
